@@ -210,14 +210,16 @@ JudgeCase(n) ==
        /\ UcsMBitsP(FxInt(39), FxDiv(FxLn(FxAdd(FxOne, FxMul(FxRat(288, 10000), FxInt(39)))), FxRat(288, 10000)), 8) < 10
        /\ UcsJBits(D(FxInt(45)), D(FxDiv(FxMul(C17, FxInt(45)), FxAdd(FxOne, FxMul(FxRat(7, 100), FxInt(45)))))) < 5
     [] n = 21 -> (* the domain: sRGB primaries, white and a dark grey have non-negative cone responses ... *)
-       /\ InDomain(V3(FxRat(4124, 10000), FxRat(2126, 10000), FxRat(193, 10000))) /\ InDomain(V3(FxRat(3576, 10000), FxRat(7152, 10000), FxRat(1192, 10000)))
-       /\ InDomain(V3(FxRat(1805, 10000), FxRat(722, 10000), FxRat(9505, 10000))) /\ InDomain(WhiteD65)
-       /\ InDomain(V3(FxRat(1, 1000), FxRat(1, 1000), FxRat(1, 1000))) /\ ~InCollar(WhiteD65)
+       /\ InDomain(DV3(FxRat(4124, 10000), FxRat(2126, 10000), FxRat(193, 10000))) /\ InDomain(DV3(FxRat(3576, 10000), FxRat(7152, 10000), FxRat(1192, 10000)))
+       /\ InDomain(DV3(FxRat(1805, 10000), FxRat(722, 10000), FxRat(9505, 10000))) /\ InDomain(DV3(WhiteD65[1], WhiteD65[2], WhiteD65[3]))
+       /\ InDomain(DV3(FxRat(1, 1000), FxRat(1, 1000), FxRat(1, 1000))) /\ ~InCollar(DV3(WhiteD65[1], WhiteD65[2], WhiteD65[3]))
+       (* ... and the exact integer form of the matrix is the published one: the white E = (1, 1, 1) has responses (1, 1, 1) *)
+       /\ \A i \in 1..3 : DyEq(Cone(DV3(FxOne, FxOne, FxOne))[i], DyFromInt(1000000))
     [] n = 22 -> (* ... a colour with one slightly negative response is in the collar; negative luminance, a strongly negative
                     response, two negative responses and magnitudes below 2^-34 are outside *)
-       /\ InCollar(V3(FxRat(3, 10), FxRat(3, 10), FxRat(-2, 100))) /\ ~InDomain(V3(FxRat(3, 10), FxRat(3, 10), FxRat(-1, 10)))
-       /\ ~InDomain(V3(FxRat(-1, 10), FxRat(-1, 10), FxRat(-1, 10))) /\ ~InDomain(V3(FxRat(103, 1000), FxRat(-208, 10000), FxRat(936, 1000)))
-       /\ ~InDomain(V3(FxEps(40), FxEps(40), FxEps(40)))
+       /\ InCollar(DV3(FxRat(3, 10), FxRat(3, 10), FxRat(-2, 100))) /\ ~InDomain(DV3(FxRat(3, 10), FxRat(3, 10), FxRat(-1, 10)))
+       /\ ~InDomain(DV3(FxRat(-1, 10), FxRat(-1, 10), FxRat(-1, 10))) /\ ~InDomain(DV3(FxRat(103, 1000), FxRat(-208, 10000), FxRat(936, 1000)))
+       /\ ~InDomain(DV3(FxEps(40), FxEps(40), FxEps(40)))
 
 SelfCases == {<<"ucsj", n>> : n \in {k \in 0..120 : k % Stride = 0}} \cup {<<"ucsm", n>> : n \in {k \in 0..150 : k % Stride = 0}}
              \cup {<<"polar", n>> : n \in {k \in 0..72 : k % Stride = 0}}
